@@ -259,9 +259,9 @@ where
                     Ok(p)
                 }
                 XRef::Stream {stream_id, index} => {
-                    if !flags.contains(ParseFlags::STREAM) {
-                        return Err(PdfError::PrimitiveNotAllowed { found: ParseFlags::STREAM, allowed: flags });
-                    }
+                    // (`flags` restrict the kind of the member, checked by `parse` below; the object
+                    // stream that holds it is loaded whatever they are: the /Length of an ordinary
+                    // stream may be an integer stored in an object stream)
                     // use get to cache the object stream
                     let obj_stream = resolve.get::<ObjectStream>(Ref::from_id(stream_id))?;
 
